@@ -64,6 +64,8 @@ func (x *Ctx) RunWith(mod func(cfg *core.Config)) (*core.Case, *core.Result) {
 
 var crashRe = regexp.MustCompile(`(?m)^(panic:|fatal error:|runtime:|goroutine \d+ \[|runtime: goroutine stack exceeds)`)
 
+var flagErrRe = regexp.MustCompile(`(?m)^(flag provided but not defined: |invalid boolean value |invalid value |flag needs an argument: |bad flag syntax: )`)
+
 // Crashed reports a Go runtime crash signature.
 func Crashed(r *core.Result) (bool, string) {
 	if r.TimedOut {
@@ -81,6 +83,10 @@ func Crashed(r *core.Result) (bool, string) {
 			line = line[:j]
 		}
 		return true, "runtime crash: " + line
+	}
+	if r.Exit == 2 && flagErrRe.Match(r.Stderr) {
+		// package flag's own refusal (undefined flag, unparsable value): usage on stderr, exit status 2 - a diagnostic
+		return false, ""
 	}
 	if r.Exit != 0 && r.Exit != 1 {
 		return true, fmt.Sprintf("exit status %d", r.Exit)
